@@ -166,6 +166,85 @@ pub fn parent(i: u64) -> (r: u64)
     ensures r == spec_parent(i)
 { unimplemented!() }
 
+// ---- arithmetic of the mountain range (proved) ----
+/// a multiple of 2^a is a multiple of 2^b for b <= a
+pub proof fn lemma_p2_divides(x: int, a: nat, b: nat)
+    requires x % p2(a) == 0, b <= a
+    ensures x % p2(b) == 0
+{
+    lemma_p2_add(b, (a - b) as nat);
+    lemma_p2_pos(b); lemma_p2_pos((a - b) as nat);
+    vstd::arithmetic::div_mod::lemma_mod_mod(x, p2(b), p2((a - b) as nat));
+    assert(0int % p2(b) == 0) by { vstd::arithmetic::div_mod::lemma_small_mod(0, p2(b) as nat); }
+}
+pub proof fn lemma_p2_self_divides(a: nat, b: nat)
+    requires b <= a
+    ensures p2(a) % p2(b) == 0
+{
+    lemma_p2_pos(a);
+    assert(p2(a) % p2(a) == 0) by { vstd::arithmetic::div_mod::lemma_mod_self_0(p2(a)); }
+    lemma_p2_divides(p2(a), a, b);
+}
+/// an odd multiple of P is P modulo 2P
+pub proof fn lemma_odd_multiple(o: int, pp: int)
+    requires o >= 0, o % 2 == 1, pp > 0
+    ensures (o * pp) % (2 * pp) == pp
+{
+    let k = o / 2;
+    assert(o == 2 * k + 1);
+    assert(o * pp == (2 * pp) * k + pp) by (nonlinear_arith) requires o == 2 * k + 1;
+    vstd::arithmetic::div_mod::lemma_mod_multiples_vanish(k, pp, 2 * pp);
+    vstd::arithmetic::div_mod::lemma_small_mod(pp as nat, (2 * pp) as nat);
+}
+pub proof fn lemma_even_multiple(o: int, pp: int)
+    requires o >= 0, o % 2 == 0, pp > 0
+    ensures (o * pp) % (2 * pp) == 0
+{
+    let k = o / 2;
+    assert(o * pp == (2 * pp) * k + 0) by (nonlinear_arith) requires o == 2 * k;
+    vstd::arithmetic::div_mod::lemma_mod_multiples_vanish(k, 0, 2 * pp);
+    vstd::arithmetic::div_mod::lemma_small_mod(0, (2 * pp) as nat);
+}
+/// a node (d, o) that starts at flat position s = o * 2^(d+1) is a left child iff s is a multiple of 2^(d+2)
+pub proof fn lemma_even_offset(o: int, d: nat, s: int)
+    requires o >= 0, s == o * p2(d + 1)
+    ensures (s % p2(d + 2) == 0) == (o % 2 == 0)
+{
+    lemma_p2_pos(d + 1);
+    assert(p2(d + 2) == 2 * p2(d + 1));
+    if o % 2 == 0 { lemma_even_multiple(o, p2(d + 1)); } else { lemma_odd_multiple(o, p2(d + 1)); }
+}
+/// in a mountain range that ends at s1, a right child (d_a, o_a odd) starting at s1 has the last root as its left sibling
+pub proof fn lemma_mr_sibling(s1: int, o_a: int, d_a: nat, s0: int, d_b: nat)
+    requires o_a >= 0, o_a % 2 == 1, s1 == o_a * p2(d_a + 1), s0 == s1 - p2(d_b + 1), s0 >= 0, s0 % p2(d_b + 2) == 0
+    ensures d_b == d_a
+{
+    lemma_p2_pos(d_a + 1); lemma_p2_pos(d_b + 1);
+    assert(p2(d_a + 2) == 2 * p2(d_a + 1));
+    assert(p2(d_b + 2) == 2 * p2(d_b + 1));
+    lemma_odd_multiple(o_a, p2(d_a + 1));
+    if d_b > d_a {
+        // s0 and 2^(d_b+1) are multiples of 2^(d_a+2), so s1 is: but s1 is an odd multiple of 2^(d_a+1)
+        lemma_p2_divides(s0, d_b + 2, d_a + 2);
+        lemma_p2_self_divides(d_b + 1, d_a + 2);
+        vstd::arithmetic::div_mod::lemma_add_mod_noop(s0, p2(d_b + 1), p2(d_a + 2));
+        vstd::arithmetic::div_mod::lemma_small_mod(0, p2(d_a + 2) as nat);
+        assert(false);
+    }
+    if d_b < d_a {
+        // s1 is a multiple of 2^(d_b+2), so s0 = s1 - 2^(d_b+1) is not
+        let m = p2(d_b + 2);
+        lemma_p2_add(d_a + 1, 0);
+        assert((o_a * p2(d_a + 1)) % p2(d_a + 1) == 0) by { vstd::arithmetic::div_mod::lemma_mod_multiples_basic(o_a, p2(d_a + 1)); }
+        lemma_p2_divides(s1, d_a + 1, d_b + 2);
+        // s1 = s0 + 2^(d_b+1) with s0 % m == 0: (s0 + h) % m == h % m == h != 0
+        vstd::arithmetic::div_mod::lemma_add_mod_noop(s0, p2(d_b + 1), m);
+        vstd::arithmetic::div_mod::lemma_small_mod(p2(d_b + 1) as nat, m as nat);
+        vstd::arithmetic::div_mod::lemma_small_mod(0, m as nat);
+        assert(false);
+    }
+}
+
 /// an even index is the leaf (0, index / 2)
 pub proof fn lemma_leaf_index(x: int)
     requires x >= 0, x % 2 == 0
